@@ -181,7 +181,8 @@ func (wc *wctx) mint(s *spec, router int, id string) (material, string) {
 
 type request struct {
 	Path          string     `json:"path"`
-	Form          url.Values `json:"form"`
+	Query         url.Values `json:"query,omitempty"` // parameters in the URL of the POST
+	Form          url.Values `json:"form"`            // parameters in the body
 	Authorization string     `json:"authorization,omitempty"`
 }
 
@@ -347,6 +348,16 @@ func present(s *spec, w *opdrv.World, id string, rq *request) proof {
 			f.Set("client_id", id)
 		}
 		p.badAssertion = true
+	case pOwnBasicOtherID:
+		sec, ok := secretOr()
+		rq.Authorization = basicHeader(id, sec, true)
+		f.Set("client_id", otherBID)
+		p.rightSecret, p.wrongSecret = ok, !ok
+	case pOwnAssertOtherID:
+		a, valid := assertion(s, w, id, akValid)
+		setAssertion(f, a, true)
+		f.Set("client_id", otherBID)
+		p.validAssertion, p.badAssertion = valid, !valid
 	case pMixedBasic:
 		rq.Authorization = basicHeader(otherBID, otherBSec, true)
 		f.Set("client_id", id)
@@ -474,6 +485,12 @@ func buildRequest(s *spec, w *opdrv.World, id string, m material) (*request, pro
 		rq.Path = "/device_authorization"
 		f.Set("scope", "openid")
 	}
+	ownParams := []string{}
+	for k := range f {
+		if k != "grant_type" {
+			ownParams = append(ownParams, k)
+		}
+	}
 	var p proof
 	if s.Op == opBearer {
 		// client authentication is not part of this grant; attach secret-style presentations as superfluous material
@@ -487,11 +504,85 @@ func buildRequest(s *spec, w *opdrv.World, id string, m material) (*request, pro
 	} else {
 		p = present(s, w, id, rq)
 	}
+	place(s, rq, &p, ownParams)
 	return rq, p, bk
 }
 
+var credentialParams = []string{"client_id", "client_secret", "client_assertion", "client_assertion_type"}
+
+// place distributes the parameters over body and URL query as the placement dimensions say.
+func place(s *spec, rq *request, p *proof, ownParams []string) {
+	rq.Query = url.Values{}
+	f, q := rq.Form, rq.Query
+	move := func(k string, how int) {
+		v, ok := f[k]
+		if !ok {
+			return
+		}
+		switch how {
+		case placeQuery:
+			q[k] = v
+			delete(f, k)
+		case placeBoth:
+			q[k] = v
+		}
+	}
+	if gt, ok := f["grant_type"]; ok && isTokenOp(s.Op) {
+		decoy := []string{string(opGrant[s.Decoy])}
+		switch s.GTPlace {
+		case gtQuery:
+			q["grant_type"] = gt
+			delete(f, "grant_type")
+		case gtBoth:
+			q["grant_type"] = gt
+		case gtQueryTargetBodyDecoy:
+			q["grant_type"], f["grant_type"] = gt, decoy
+		case gtQueryDecoyBodyTarget:
+			q["grant_type"] = decoy
+		}
+		if s.gtDiffers() && s.Decoy == opCC && f.Get("scope") == "" {
+			f.Set("scope", "api")
+		}
+	}
+	for _, k := range ownParams {
+		move(k, s.ParamPlace)
+	}
+	for _, k := range credentialParams {
+		if k == "client_secret" && s.CredPlace == placeDifferent {
+			if cur := f.Get(k); cur != "" {
+				other := s.wrongSecret()
+				if cur != s.Secret && s.HasSecret {
+					other = s.Secret
+				}
+				if s.WrongVar%2 == 0 {
+					q.Set(k, other)
+				} else {
+					q.Set(k, cur)
+					f.Set(k, other)
+				}
+				p.rightSecret, p.wrongSecret = s.HasSecret, true
+			}
+			continue
+		}
+		how := s.CredPlace
+		if how == placeDifferent {
+			how = placeBoth
+		}
+		move(k, how)
+	}
+	if len(q) > 0 {
+		p.canonical = false // the positive cells count plain body requests only
+	} else {
+		rq.Query = nil
+	}
+}
+
 func send(w *opdrv.World, router int, rq *request) *opdrv.Resp {
-	r := w.NewRequest(http.MethodPost, rq.Path, rq.Form)
+	path := rq.Path
+	if len(rq.Query) > 0 {
+		path += "?" + rq.Query.Encode()
+	}
+	r := w.NewRequest(http.MethodPost, path, rq.Form)
 	if rq.Authorization != "" {
 		r.Header.Set("Authorization", rq.Authorization)
 	}
